@@ -251,7 +251,9 @@ class PathBasedRoutingProblem(RoutingProblem):
         feas, cost, visits_node = self.check_route(route)
         visits_node_indices = np.flatnonzero(visits_node)
         added = False
-        if feas and route not in self.routes:
+        # Routes are stored as lists; compare as a list so that a route given as
+        # a tuple or an array is recognized when it is already stored
+        if feas and list(route) not in self.routes:
             self.routes.append(list(route))
             self.route_costs.append(cost)
             self.route_node_visited.append(visits_node_indices)
